@@ -179,7 +179,7 @@ func (f *Filter) FilterRequest(
 	item, ok := f.itemFromCache(ctx, cacheKey, host)
 	f.updateCacheLookupsMetrics(ok)
 	if ok {
-		return f.clonedResult(req.DNS, item.res), nil
+		return f.resultFromCache(req, item)
 	}
 
 	fam, ok := isFilterable(qt)
@@ -259,19 +259,23 @@ func isFilterable(qt dnsmsg.RRType) (fam netutil.AddrFamily, ok bool) {
 	return fam, fam != netutil.AddrFamilyNone
 }
 
-// clonedResult returns a clone of the result based on its type.  r must be nil,
-// [*internal.ResultModifiedRequest], or [*internal.ResultModifiedResponse].
-func (f *Filter) clonedResult(req *dns.Msg, r internal.Result) (clone internal.Result) {
-	switch r := r.(type) {
-	case nil:
-		return nil
-	case *internal.ResultModifiedRequest:
-		return r.Clone(f.cloner)
-	case *internal.ResultModifiedResponse:
-		return r.CloneForReq(f.cloner, req)
-	default:
-		panic(fmt.Errorf("hashprefix: unexpected type for result: %T(%[1]v)", r))
+// resultFromCache returns the filtering result for req based on the cached
+// item.  The result is always constructed anew using the data of req, since the
+// messages of the cached result have been created for another request, which
+// could have had other flags and EDNS parameters and could have belonged to
+// another profile with other blocking mode and TTL of filtered responses.
+func (f *Filter) resultFromCache(
+	req *internal.Request,
+	item *cacheItem,
+) (r internal.Result, err error) {
+	if item.res == nil {
+		return nil, nil
 	}
+
+	fam, _ := isFilterable(req.QType)
+	_, rule := item.res.MatchedRule()
+
+	return f.filteredResult(req, string(rule), fam)
 }
 
 // filteredResult returns a filtered request or response.
